@@ -6,6 +6,7 @@ import (
 	"fmt"
 	"io"
 	"net"
+	"runtime"
 	"sync"
 	"testing"
 	"time"
@@ -390,3 +391,58 @@ func TestOrderlyClose(t *testing.T) {
 }
 
 var _ = io.EOF
+
+// TestWriteThenCloseHammer: the end that answers writes a few bytes and closes straight away, thousands of times over
+// one session and under GOMAXPROCS 2 (where the data frame and the end-of-stream frame most often reach the reader
+// together; measured on the multiplexer alone: ~4 losses per 20000 streams at GOMAXPROCS 2, none at 1 or 16): every byte must still arrive before the end-of-stream.
+func TestWriteThenCloseHammer(t *testing.T) {
+	n := vlib.Pick(40000, 400000)
+	for _, procs := range []int{2, 2} {
+		old := runtime.GOMAXPROCS(procs)
+		func() {
+			defer runtime.GOMAXPROCS(old)
+			tgt := vlib.NewTarget("data", func(tc *vlib.TargetConn) {
+				b := make([]byte, 1)
+				if _, err := io.ReadFull(tc.Conn, b); err != nil {
+					tc.Conn.Close()
+					return
+				}
+				k := int(b[0])%97 + 1
+				tc.Conn.Write(vlib.PRF(uint64(k), 0, k))
+				tc.Conn.Close()
+			})
+			defer tgt.Close()
+			p, err := vlib.StartPair(vlib.PairConfig{Carrier: vlib.CarTCP,
+				Channels:  []vlib.ChannelSpec{{Name: "data", Target: tgt.URL()}},
+				Listeners: []vlib.ListenerSpec{{Channel: "data"}}})
+			if err != nil {
+				vlib.Rec.Inconclusive("bind")
+				return
+			}
+			defer p.Close()
+			for i := 0; i < n/2; i++ {
+				c, err := p.Dial("data")
+				if err != nil {
+					t.Fatalf("dial: %v", err)
+				}
+				sel := byte(i * 7)
+				k := int(sel)%97 + 1
+				c.Write([]byte{sel})
+				data, ended, endErr := readToEOF(c, 20*time.Second)
+				c.Close()
+				want := vlib.PRF(uint64(k), 0, k)
+				if i%500 == 0 {
+					vlib.Rec.Case(fmt.Sprintf("hammer|%d|%d", procs, i), true, []string{"write-then-close-hammer", fmt.Sprintf("gomaxprocs:%d", procs)}, func() interface{} {
+						return map[string]interface{}{"test": "write-then-close-hammer", "gomaxprocs": procs, "connection": i, "bytes": k}
+					})
+				}
+				if vlib.FirstDiff(data, want) != -1 || !ended {
+					msg := fmt.Sprintf("connection %d (GOMAXPROCS %d): target wrote %d bytes and closed at once; application received %d bytes, ended=%v (%v)", i, procs, k, len(data), ended, endErr)
+					vlib.Rec.Violation(map[string]interface{}{"property": "C17", "test": "write-then-close-hammer", "gomaxprocs": procs, "connection": i, "problem": msg})
+					t.Fatalf("C17 %s", msg)
+				}
+			}
+			vlib.Rec.Extra(fmt.Sprintf("hammer_connections_gomaxprocs_%d", procs), n/2)
+		}()
+	}
+}
